@@ -36,5 +36,8 @@ CHECKS = {
              level_text="Generated populations (0..58 listed nodes, eligible count placed at count+{0,+-1,+-2,+-4,9,20}), all four ineligibility kinds, enforce-max-chains on/off; exploration only.",
              level_note="Eligibility is read as: listed for the chain at session start AND, at the reference height, existing, not jailed, still staked for the chain and within max-chains when enforced "
                         "(the property text does not mention 'still existing / still listing the chain'; treating those nodes as eligible would be a false alarm). "
-                        "Termination bound 30 s per generation (> 10^4 x normal). The real nodes keeper and HandleDispatch are not exercised here (C32 covers app level)."),
+                        "Termination bound 30 s per generation (> 10^4 x normal). The application-level form - sessions generated by the real dispatch entry point of a running chain "
+                        "(real nodes keeper, real validators-by-chain index, historical contexts) after every commit of generated histories with jailing, unjail, edit-stake and unstake, judged against "
+                        "eligibility read from raw store snapshots - is props/pos TestC33Chain, run by the same check.",
+             also=[dict(group="pos", test="TestC33Chain", quick=dict(checks=150, timeout=600), thorough=dict(checks=2000, shards=8, timeout=3000))]),
 }
